@@ -22,6 +22,7 @@ class Scenario(Session):
         self.recv_ops = []
         self.terminal_seen = False
         self.held = []               # broker responses held back (delivered later / after reconnect are dropped)
+        self.bsent = []              # every QoS>0 message the broker sent: dict(pid,qos,tag,acked)
         self.silent_broker = False
 
     # ---------------------------------------------------------------- API
@@ -180,15 +181,34 @@ class Scenario(Session):
         elif t == "pingreq":
             self.q(ref.e_pingresp())
         elif t == "puback":
+            for m in self.bq:
+                if m["pid"] == d["pid"] and m["qos"] == 1: self.mark_acked(m)
             self.bq = [m for m in self.bq if not (m["pid"] == d["pid"] and m["qos"] == 1)]
         elif t == "pubrec":
             for m in self.bq:
                 if m["pid"] == d["pid"] and m["qos"] == 2: m["state"] = "rel"
             self.q(ref.e_ack("pubrel", d["pid"], 0, [], short=self.rng.random() < 0.5))
         elif t == "pubcomp":
+            for m in self.bq:
+                if m["pid"] == d["pid"] and m["qos"] == 2: self.mark_acked(m)
             self.bq = [m for m in self.bq if not (m["pid"] == d["pid"] and m["qos"] == 2)]
         elif t == "disconnect":
             self.broker_out = bytearray(); self.held = []   # the broker closes the connection
+
+    def mark_acked(self, m):
+        for b in self.bsent:
+            if b["tag"] == m["tag"]: b["acked"] = True
+
+    def reconnect(self, sp, caps):
+        """the broker side of a reconnect: with Session Present = 1 it retransmits what is unacknowledged (PUBLISH with DUP = 1 while it
+        has not seen the PUBACK / PUBREC, PUBREL afterwards), in the original order; with Session Present = 0 its session state is gone"""
+        super().reconnect(sp, caps)
+        if not sp:
+            self.bq = []; self.inflight2 = {}
+            return
+        for m in self.bq:
+            if m["state"] == "pub": self.q(ref.e_publish(b"a/b", m["tag"], m["qos"], 0, 1, m["pid"], m["ps"])); self.count("broker-retransmit-publish")
+            else: self.q(ref.e_ack("pubrel", m["pid"], 0, [], short=self.rng.random() < 0.5)); self.count("broker-retransmit-pubrel")
 
     def maybe_bad_verdicts(self, rcs, good):
         """a broker that occasionally acknowledges with a wrong count or an inadmissible code (must never be surfaced as success)"""
@@ -200,6 +220,24 @@ class Scenario(Session):
         if k == "missing": return rcs[:-1] if len(rcs) > 1 else rcs + [0x42]
         return [0x42] + rcs[1:]
 
+    def stray_ack(self):
+        """a well-formed acknowledgement nobody asked for (duplicate of an earlier one, or for an identifier the client is about
+        to use): it must never complete an operation whose request it does not follow"""
+        rng = self.rng
+        seen = [d.get("pid") for _, d, _ in self.broker_seen if d.get("pid")]
+        hi = max(seen) if seen else 0
+        pid = rng.choice(seen[-6:] + [hi + 1, hi + 1, hi + 2, 1, 2]) if seen else rng.choice([1, 2])
+        kind = rng.choice(["puback", "puback", "pubrec", "pubcomp", "suback", "unsuback"])
+        if kind in ("suback", "unsuback"):
+            good = SUBACK_RCS if kind == "suback" else UNSUBACK_RCS
+            data = ref.e_suback(kind, pid, [rng.choice(good) for _ in range(rng.choice([1, 1, 2, 3]))], self.ack_props())
+        else:
+            rc = rng.choice(PUBACK_RCS) if kind != "pubcomp" else rng.choice([0, 0x92])
+            data = ref.e_ack(kind, pid, rc, self.ack_props(), short=rng.random() < 0.5)
+        if self.silent_broker: return
+        self.broker_out += data
+        self.count("stray-" + kind)
+
     def broker_publish(self):
         qos = self.rng.choice([0, 1, 2])
         self.bmsg += 1
@@ -207,9 +245,11 @@ class Scenario(Session):
         pid = None
         if qos:
             pid = self.next_bpid; self.next_bpid = self.next_bpid % 65535 + 1
-            self.bq.append(dict(pid=pid, qos=qos, state="pub", tag=tag, conn=self.conn))
         ps = [] if self.rng.random() < 0.6 else [(0x26, (b"bk", b"bv")), (0x03, b"text/plain")]
         if self.rng.random() < 0.2: ps.append((0x0B, self.rng.choice([1, 127, 128])))
+        if qos:
+            self.bq.append(dict(pid=pid, qos=qos, state="pub", tag=tag, conn=self.conn, ps=ps))
+            self.bsent.append(dict(pid=pid, qos=qos, tag=tag, acked=False))
         self.q(ref.e_publish(b"a/b", tag, qos, 0, 0, pid, ps))
         self.count(f"broker-pub-qos{qos}")
 
@@ -250,6 +290,7 @@ class Scenario(Session):
             if self.sid in self.write_pending and self.connected: acts.append(("wok", 30))
             if self.sid in self.read_pending and self.connected and self.broker_out: acts.append(("rx", 35))
             if self.held and self.connected: acts.append(("release", 6))
+            if self.connected and self.profile != "session": acts.append(("stray", 4))
         if not acts: return False
         tot = sum(w for _, w in acts); x = rng.uniform(0, tot)
         for a, w in acts:
@@ -283,6 +324,8 @@ class Scenario(Session):
             self.rx(data); self.count("rx")
         elif a == "release":
             self.broker_out += self.held.pop(0)
+        elif a == "stray":
+            self.stray_ack()
         self.handle_shutdown()
         return True
 
@@ -303,7 +346,7 @@ class Scenario(Session):
                 self.rx(data); self.handle_shutdown(); continue
             # quiescent: is anything still owed?  (QoS exchanges the broker must continue are driven by its replies above)
             pend = [o for o in self.ops.values() if o.kind in ("pub", "sub", "unsub") and not o.done and not o.cancelled]
-            if not pend: break
+            if not pend and (not self.bq or it > 60): break
             # unanswered requests whose reply was lost on an earlier connection: the 20 s sentry makes the client reconnect and resend
             self.advance(3001); self.handle_shutdown()
         # take everything the receive channel still holds
@@ -313,6 +356,7 @@ class Scenario(Session):
                 if free: break
                 self.api_recv()
             self.channel_drained = True
+        self.heal_ok = self.running and not self.crashed
         self.heal_end = len(self.tr)
 
     def finish(self):
